@@ -37,7 +37,7 @@ def load_variants(prop: str) -> List[dict]:
 def apply_variant(repo_root: str, v: dict) -> Optional[Dict[str, str]]:
     """Returns the override map, or None when the variant is stale."""
     overrides: Dict[str, str] = {}
-    edits = v.get("edits") or [{"file": v["file"], "find": v["find"], "replace": v["replace"]}]
+    edits = v.get("edits") or [{"file": v["file"], "find": v["find"], "replace": v["replace"], "count": v.get("count", 1)}]
     for e in edits:
         rel = e["file"]
         path = os.path.join(repo_root, rel)
